@@ -396,6 +396,56 @@ func TestC05BodySoup(t *testing.T) {
 	hC05.Class("body-soup-sweep")
 }
 
+// numberKeys: the fields the parser reads as numbers (strconv accepts a sign, and with base 0 a prefix and
+// underscores — a number read that way and then used as an index, a length or a shift can be negative or huge),
+// each in the record types that interpret it.
+var numberKeys = []struct {
+	types []uint16
+	keys  []string
+}{
+	{[]uint16{1306}, []string{"saddr"}},
+	{[]uint16{1300, 1326}, []string{"arch", "syscall", "exit", "a0", "a1", "sig", "auid", "ses", "success", "items", "per"}},
+	{[]uint16{1309}, []string{"argc", "a0_len", "a0[0]", "a1"}},
+	{[]uint16{1302}, []string{"mode", "item", "ouid", "dev", "rdev", "inode", "cap_fp", "nametype"}},
+	{[]uint16{1318, 1327, 1319}, []string{"opid", "sig", "oauid", "oses", "proctitle", "data"}},
+	{[]uint16{1100, 1006, 1107}, []string{"res", "result", "auid", "ses", "old-auid", "id", "uid", "msg"}},
+}
+
+var numberPieces = []string{"-", "+", "0", "1", "F", "f", "x", "_", "0x", "FF", "02", "0A", "10", "00", "7FFFFFFF", "80000000", "FFFFFFFF", "4294967295", "9223372036854775808"}
+
+// TestC05NumberSoup: every concatenation of up to 3 (thorough: 4) of those pieces as the value of every field that
+// is read as a number, alone and next to an ordinary neighbour, through Parse and every accessor.
+func TestC05NumberSoup(t *testing.T) {
+	depth := 3
+	if hx.Thorough() {
+		depth = 4
+	}
+	for _, g := range numberKeys {
+		for _, key := range g.keys {
+			var rec func(val string, d int)
+			rec = func(val string, d int) {
+				for _, typ := range g.types {
+					for _, body := range []string{key + "=" + val, "pid=1 " + key + "=" + val + " comm=\"c\"", "msg='" + key + "=" + val + " res=success'"} {
+						c := C05Case{Typ: typ, Input: []byte("audit(1.000:1): " + body)}
+						hC05.Eval()
+						if err := hx.Guard(propC05, c); err != nil {
+							hC05.Fail(t, "TestC05", c, "%v", err)
+						}
+					}
+				}
+				if d == depth {
+					return
+				}
+				for _, p := range numberPieces {
+					rec(val+p, d+1)
+				}
+			}
+			rec("", 0)
+		}
+	}
+	hC05.Class("number-soup-sweep")
+}
+
 // TestC05RepoLogs replays every line of the repository's test logs through the
 // oracle under every enrichment type (a cheap differential: the line's own type
 // plus all the others).
